@@ -191,7 +191,9 @@ func (g *vfGen) genC13() {
 		// one damaged line
 		d := append([]string{}, lines...)
 		j := g.intn(len(d))
-		switch g.intn(6) {
+		switch g.intn(7) {
+		case 6:
+			d[j] = []string{"hello world", "# comment", "}", ",", "]", "x", ":", "// c", "=1", "'a'", "NaN", "undefined"}[g.intn(12)]
 		case 4:
 			d[j] = []string{"{", "[", "\"", " {", "[ "}[g.intn(5)]
 		case 5:
